@@ -1,5 +1,5 @@
 """Property registry: which rules decide which property, and what each check claims."""
-import r_own, r_shrink
+import r_own, r_shrink, r_reach
 
 RULE_DOC = {
     "R1": "no buffer access through a handle after it gave up its reference",
@@ -51,7 +51,26 @@ def rules_C18(ctx):
     r_own.rule_U1(ctx, include_panic=False, rule="U1")
 
 
+def rules_C08(ctx):
+    r_reach.rule_C08(ctx)
+    ctx.take_ts(["P1", "DUP"])
+
+
+def rules_C09(ctx):
+    r_reach.rules_C09(ctx)
+
+
+def rules_C10(ctx):
+    r_reach.rule_C10(ctx)
+
+
 PROPS = {
+    "C08": {"rules": rules_C08, "level": "proof",
+            "explanation": "Call-graph proof over the resolved program: from Clone::clone, Clone::clone_from, From<&LeanString>::from and Repr::make_shallow_clone no allocation site, no copy primitive, no heap constructor and no user-code edge is reachable (leaves are core::* and alloc::alloc::dealloc only, no unresolved edge), the value returned by make_shallow_clone is core::ptr::read(self) on every path, and on the heap edge exactly one increment precedes that read (typestate P1/DUP). Holds for all lengths and storage states."},
+    "C09": {"rules": rules_C09, "level": "other",
+            "explanation": "Every call from outside the heap-buffer module into an allocating heap-buffer function is dominated by the exact inline threshold edge (quantity > MAX_INLINE_SIZE evaluated for the target, on the right quantity: len(text) / capacity / len+additional / max(len,min)) or by a kind=Heap guard; no other body allocates directly; all constructors reach the allocator only through those gates; under the assumption kind=Inline the shrinking edits reach no allocation and the growing ones only the guarded gate; HeapBuffer::new performs exactly one allocation with capacity = len(text)."},
+    "C10": {"rules": rules_C10, "level": "other",
+            "explanation": "from_static_str reaches no allocation site and copies text only via InlineBuffer::new behind len <= MAX_INLINE_SIZE; StaticBuffer::new stores the caller's pointer; under the assumption kind=Static (typestate walk with edge refinement) clone/pop/truncate/clear/shrink_to/len/capacity/as_bytes reach no allocation and no write primitive or mutable view and stay static-or-inline; every write-capable call site excludes kind=Static (R-contract); *mut pointers are derived from the storage pointer only under a heap guard."},
     "C02": {"rules": rules_C02, "level": "other",
             "explanation": "Typestate analysis over MIR of every function that can reach a write into string storage: at each call of as_slice_mut / as_str_mut / Repr::set_len / HeapBuffer::realloc / HeapBuffer::set_len, every abstract state (storage kind x uniqueness x reference state) reaching the call on any path satisfies the callee's unsafe contract (not static, heap => proved unique). Callee summaries (reserve, ensure_modifiable, replace_inner, is_unique ...) are computed from their bodies, not assumed; debug assertions never discharge an obligation."},
     "C03": {"rules": rules_C03, "level": "other",
